@@ -85,7 +85,7 @@ def run_unit(scratch, tier, prop="C03"):
     specs = [dict(name=n, kind=o["kind"], contract=o["contract"], functions=o["functions"], bound=o.get("bound")) for n, o in OBS.items()
              if (tier == "thorough" or not (n.startswith("hash_union") and not n.startswith("hash_union_small"))) and prop in o.get("props", ["C03"])]
     specs.append(dict(name="canary_must_fail", kind="canary", contract="assert that must fail"))
-    obs, cmd, out = kani.run_harnesses(crate, specs, NAME, "pers", jobs=8, timeout=6000, harness_timeout=("40m" if tier == "thorough" else "20m"),
+    obs, cmd, out = kani.run_harnesses(crate, specs, NAME, "pers", jobs=5, timeout=6000, harness_timeout=("40m" if tier == "thorough" else "20m"),
                                        extra_flags=["--no-assertion-reach-checks"])
     kani.attach_counterexamples(obs, crate, "pers", out)
     return obs, meta, cmd
